@@ -156,46 +156,56 @@ SoundByDefinition(op, za, zb, zr, U) ==
      (Represents(za, Ra, U) /\ Represents(zb, Rb, U)) =>
         Represents(zr, IF op = "and" THEN Ra \cap Rb ELSE Ra \cup Rb, U)
 
+(* a zone together with the point sets of its boxes (computed once per zone) *)
+View(z, U) == LET pi == Pts(z.int, U)
+                  px == Pts(z.ext, U) IN
+              [z |-> z, pi |-> pi, px |-> px,
+               ki |-> IF z.neg THEN U \ px ELSE pi,
+               ko |-> IF z.neg THEN pi ELSE U \ px]
+
 (* soundness, reduced: the table of BoundingZone.hh; as sets of violated clause names *)
-SoundnessViolations(op, za, zb, zr, U) ==
+SoundnessViolationsV(op, a, b, r) ==
   IF op = "and"
-  THEN Named(KnownIn(zr, U) \subseteq KnownIn(za, U) \cap KnownIn(zb, U), "X06.IntersectInteriorSound")
-       \cup Named(KnownOut(zr, U) \subseteq KnownOut(za, U) \cup KnownOut(zb, U), "X06.IntersectExteriorSound")
-  ELSE Named(KnownIn(zr, U) \subseteq KnownIn(za, U) \cup KnownIn(zb, U), "X06.UnionInteriorSound")
-       \cup Named(KnownOut(zr, U) \subseteq KnownOut(za, U) \cap KnownOut(zb, U), "X06.UnionExteriorSound")
+  THEN Named(r.ki \subseteq a.ki \cap b.ki, "X06.IntersectInteriorSound")
+       \cup Named(r.ko \subseteq a.ko \cup b.ko, "X06.IntersectExteriorSound")
+  ELSE Named(r.ki \subseteq a.ki \cup b.ki, "X06.UnionInteriorSound")
+       \cup Named(r.ko \subseteq a.ko \cap b.ko, "X06.UnionExteriorSound")
+SoundnessViolations(op, za, zb, zr, U) == SoundnessViolationsV(op, View(za, U), View(zb, U), View(zr, U))
 
 (* what the documentation pins beyond soundness *)
-DocumentedViolations(op, za, zb, zr, U) ==
+DocumentedViolationsV(op, a, b, r) ==
+  LET za == a.z
+      zb == b.z
+      zr == r.z IN
   \* flag: tables of calc_intersection / calc_union
   Named(zr.neg = (IF op = "and" THEN za.neg /\ zb.neg ELSE za.neg \/ zb.neg), "X06.ResultFlag")
   \* "the exterior box always encloses (or is identical to) interior"
-  \cup Named(Consistent(zr, U), "X06.ResultConsistent")
+  \cup Named(r.pi \subseteq r.px, "X06.ResultConsistent")
   \* same-sign cases: A & B = (Ai & Bi, Ax & Bx);  ~A | ~B = ~(A & B) likewise
   \cup (IF (op = "and" /\ ~za.neg /\ ~zb.neg) \/ (op = "or" /\ za.neg /\ zb.neg)
-        THEN Named(/\ Pts(zr.int, U) = Pts(za.int, U) \cap Pts(zb.int, U)
-                   /\ Pts(zr.ext, U) = Pts(za.ext, U) \cap Pts(zb.ext, U), "X06.IntersectionOfBoxes")
+        THEN Named(r.pi = a.pi \cap b.pi /\ r.px = a.px \cap b.px, "X06.IntersectionOfBoxes")
         ELSE {})
   \* A | B = ~(~A & ~B): exterior = hull, interior = one of the two, the larger
   \cup (IF (op = "or" /\ ~za.neg /\ ~zb.neg) \/ (op = "and" /\ za.neg /\ zb.neg)
-        THEN Named(/\ Pts(za.ext, U) \cup Pts(zb.ext, U) \subseteq Pts(zr.ext, U)
+        THEN Named(/\ a.px \cup b.px \subseteq r.px
                    /\ (NonNull(za.ext) /\ NonNull(zb.ext)) => zr.ext = BoxUnion(za.ext, zb.ext),
                    "X06.HullOfExteriors")
-             \cup Named(Pts(zr.int, U) \in {Pts(za.int, U), Pts(zb.int, U)}, "X06.InteriorIsOneOperand")
+             \cup Named(r.pi \in {a.pi, b.pi}, "X06.InteriorIsOneOperand")
              \cup Named((NonNull(za.int) /\ NonNull(zb.int) /\ IsFinite(za.int) /\ IsFinite(zb.int))
                            => (NonNull(zr.int) /\ Volume(zr.int) = Max2(Volume(za.int), Volume(zb.int))),
                         "X06.KeepsLargerInterior")
         ELSE {})
-  \* mixed cases, subtrahend empty: A - nothing = A
-  \cup (IF za.neg # zb.neg
-        THEN LET m == IF (op = "and") = zb.neg THEN za ELSE zb     \* the minuend as the code has it
-                 s == IF (op = "and") = zb.neg THEN zb ELSE za IN
-             IF op = "and" /\ ~NonNull(s.ext) /\ ~NonNull(s.int)
+  \* intersection with the complement of nothing: A - nothing = A
+  \cup (IF op = "and" /\ za.neg # zb.neg
+        THEN LET m == IF zb.neg THEN za ELSE zb       \* the minuend
+                 s == IF zb.neg THEN zb ELSE za IN
+             IF ~NonNull(s.ext) /\ ~NonNull(s.int)
              THEN Named(zr.int = m.int /\ zr.ext = m.ext, "X06.DifferenceWithNothing")
              ELSE {}
         ELSE {})
 
-ZoneOpViolations(op, za, zb, zr, U) ==
-  SoundnessViolations(op, za, zb, zr, U) \cup DocumentedViolations(op, za, zb, zr, U)
+ZoneOpViolationsV(op, a, b, r) == SoundnessViolationsV(op, a, b, r) \cup DocumentedViolationsV(op, a, b, r)
+ZoneOpViolations(op, za, zb, zr, U) == ZoneOpViolationsV(op, View(za, U), View(zb, U), View(zr, U))
 
 NegateViolations(z, r, U) ==
   Named(KnownIn(r, U) = KnownOut(z, U) /\ KnownOut(r, U) = KnownIn(z, U), "X06.NegateSwapsRoles")
